@@ -804,6 +804,14 @@ val fold2 : (z -> z -> z) -> char list -> char list -> sexpr -> sexpr
 
 val fold_ints : sexpr -> sexpr
 
+val isnp : sexpr -> bool
+
+val has_nonzero_digit : char list -> bool
+
+val nonzero_lit : sexpr -> bool
+
+val py_ok : sexpr -> bool
+
 val p_expr :
   (char list -> nat option) -> nat -> ctok list -> (sexpr * ctok list) option
 
